@@ -2,7 +2,7 @@
    (pointers are addresses, NULL = 0, sizes are size_t values) -> program returning
    the list [return value; extra results...]. *)
 From Coq Require Import List ZArith Bool.
-From SC Require Import Base Cfg Comb ModStr ModMem ModTok ModTs ModSearch ModConv.
+From SC Require Import ModQuery Base Cfg Comb ModStr ModMem ModTok ModTs ModSearch ModConv.
 Import ListNotations.
 Local Open Scope Z_scope.
 Local Open Scope prog_scope.
@@ -16,7 +16,9 @@ Inductive fn :=
 | F_strtok_seq | F_wcstok_seq
 | F_timingsafe_bcmp | F_timingsafe_memcmp
 | F_bsearch_s | F_strzero_s
-| F_mbstowcs_s_u8 | F_mbstowcs_s_c | F_wcstombs_s_u8 | F_wcstombs_s_c | F_wcrtomb_s_u8 | F_wcrtomb_s_c | F_wctomb_s_u8 | F_wctomb_s_c.
+| F_mbstowcs_s_u8 | F_mbstowcs_s_c | F_wcstombs_s_u8 | F_wcstombs_s_c | F_wcrtomb_s_u8 | F_wcrtomb_s_c | F_wctomb_s_u8 | F_wctomb_s_c
+| F_strcmp_s | F_strcasecmp_s | F_memcmp_s | F_strchr_s | F_strrchr_s | F_memchr_s | F_memrchr_s
+| F_strspn_s | F_strcspn_s | F_strpbrk_s | F_strprefix_s | F_strfirstdiff_s | F_strfirstsame_s | F_wcsnlen_s.
 
 Definition arg (l : list Z) (i : nat) : Z := nth i l 0.
 Definition ret1 (p : prog Z) : prog (list Z) := r <- p ;; Ret [r].
@@ -55,6 +57,20 @@ Definition run_fn (c : cfg) (f : fn) (a : list Z) : prog (list Z) :=
   | F_wctomb_s_u8 => ret1 (wctomb_s c true (arg a 0) (arg a 1) (arg a 2) (arg a 3) (arg a 4))
   | F_wctomb_s_c => ret1 (wctomb_s c false (arg a 0) (arg a 1) (arg a 2) (arg a 3) (arg a 4))
   | F_wcstok_seq => wcstok_seq c (arg a 0) (arg a 1) (arg a 2) (arg a 3) (arg a 4) (arg a 5)
+  | F_strcmp_s => ret1 (strcmp_s c (arg a 0) (arg a 1) (arg a 2) (arg a 3) (arg a 4) (arg a 5))
+  | F_strcasecmp_s => ret1 (strcasecmp_s c (arg a 0) (arg a 1) (arg a 2) (arg a 3) (arg a 4))
+  | F_memcmp_s => ret1 (memcmp_s c (arg a 0) (arg a 1) (arg a 2) (arg a 3) (arg a 4) (arg a 5) (arg a 6))
+  | F_strchr_s => ret1 (strchr_s c (arg a 0) (arg a 1) (arg a 2) (arg a 3) (arg a 4))
+  | F_strrchr_s => ret1 (strrchr_s c (arg a 0) (arg a 1) (arg a 2) (arg a 3) (arg a 4))
+  | F_memchr_s => ret1 (memchr_s c (arg a 0) (arg a 1) (arg a 2) (arg a 3) (arg a 4))
+  | F_memrchr_s => ret1 (memrchr_s c (arg a 0) (arg a 1) (arg a 2) (arg a 3) (arg a 4))
+  | F_strspn_s => ret1 (strspn_s c (arg a 0) (arg a 1) (arg a 2) (arg a 3) (arg a 4) (arg a 5) (arg a 6))
+  | F_strcspn_s => ret1 (strcspn_s c (arg a 0) (arg a 1) (arg a 2) (arg a 3) (arg a 4) (arg a 5) (arg a 6))
+  | F_strpbrk_s => ret1 (strpbrk_s c (arg a 0) (arg a 1) (arg a 2) (arg a 3) (arg a 4) (arg a 5) (arg a 6))
+  | F_strprefix_s => ret1 (strprefix_s c (arg a 0) (arg a 1) (arg a 2) (arg a 3))
+  | F_strfirstdiff_s => ret1 (strfirstdiff_s c (arg a 0) (arg a 1) (arg a 2) (arg a 3) (arg a 4))
+  | F_strfirstsame_s => ret1 (strfirstsame_s c (arg a 0) (arg a 1) (arg a 2) (arg a 3) (arg a 4))
+  | F_wcsnlen_s => ret1 (wcsnlen_s c (arg a 0) (arg a 1) (arg a 2))
   end.
 
 (* what the drivers call: configuration, allocation-failure oracle, function, arguments, memory *)
